@@ -19,7 +19,7 @@ import lexre
 import precedence
 from c07 import extracted_grammar, reachable
 from framework import Inconclusive
-from norm import norm, show
+from norm import norm, short_callee, show
 
 LEVEL = "other"
 EXPR = "expr::Expr"
@@ -66,8 +66,8 @@ def run(res, f, tier):
     names = {i: n for n, i in tok.items()}
     disp = {}
     for adt in (EXPR, VALUE, INDEX):
-        imp = "<%s as std::fmt::Display>::fmt" % adt
-        if imp not in f.bodies:
+        imp = f.impl_method("std::fmt::Display", adt, "fmt")
+        if not imp:
             raise Inconclusive("Display impl of %s not found" % adt)
         try:
             disp[adt] = fmtfacts.display_templates(f, adt, imp)
@@ -322,6 +322,16 @@ def run(res, f, tier):
             inc, w = lexre.included(img, lx.asts[tok["STRING"]])
             esc_ok = inc and lexical.ESCAPES.get(92) == 92 and lexical.ESCAPES.get(34) == 34
             why = "escaped image not inside the STRING token (%r)" % w if not inc else ""
+        elif re.fullmatch(r"[\w:]+\(self\.String\.0\)", shape[1]) and [d_ for d_ in f.bodies if fmtfacts.is_text_helper(f, d_) and short_callee(d_) == shape[1].split("(")[0]]:
+            helper = [d_ for d_ in f.bodies if fmtfacts.is_text_helper(f, d_) and short_callee(d_) == shape[1].split("(")[0]][0]
+            esc = fmtfacts.char_escaper(f, helper)
+            if esc == {92, 34}:
+                img = lexre.parse("\"([\\0-!#-\\[\\]-\U0010ffff]|\\\\\\\\|\\\\\")*\"")
+                inc, w = lexre.included(img, lx.asts[tok["STRING"]])
+                esc_ok = inc and lexical.ESCAPES.get(92) == 92 and lexical.ESCAPES.get(34) == 34
+                why = "escaped image not inside the STRING token (%r)" % w if not inc else ""
+            else:
+                why = "the escaping helper %s does not put a backslash before exactly \\ and \" (found %s)" % (helper, esc)
         elif shape[1] == "self.String.0":
             why = "the payload is interpolated raw: a string containing \" or \\ prints to text that is not one STRING token"
         else:
